@@ -44,12 +44,13 @@ PROPS["C20"] = dict(
     ],
     classify=_classify,
     shrink_key="fields",
-    rule="static: one case per file / message / enum / service / transaction message / source file / imported message "
-         "(exhaustive over the regenerated descriptor sets of both families); wire: for every message type under "
-         "proto/irismod (round robin) a value generated from its descriptor - maximal (all fields, extreme integers, long "
-         "strings, 3 elements per repeated field), random, and empty - with nested messages, repeated fields, maps, "
-         "Any-wrapped messages, Timestamp/Duration; non-trivial = the value sets a nested, repeated, map or Any field; "
-         "distinct = by hash of (message, value)",
+    rule="static: one case per file / message / enum / service / grpc.ServiceDesc / transaction message / .proto source file / "
+         "imported message (exhaustive over the regenerated descriptor sets of both families); wire: for every message type "
+         "under proto/irismod (every type once with a maximal value, then round robin over the types that have fields) a "
+         "value generated from its descriptor - maximal (all fields, extreme integers, long strings, 3 elements per repeated "
+         "field), random, and empty - with nested messages, repeated and packed fields, maps, Any-wrapped messages, "
+         "Timestamp/Duration; non-trivial = the value sets a nested, repeated, map or Any field; distinct = by hash of "
+         "(message, value)",
     explain={
         1: "a (gogoproto.nullable)=false message field or customtype numeral is absent: the gogoproto family emits it, protobuf-go does not",
         2: "the two generated families do not produce / accept the same bytes for this value",
@@ -66,7 +67,9 @@ PROPS["C20"] = dict(
         30: "the text of the .proto file and the generated descriptors disagree",
     },
     trusted_base=[
-        "translator harness/cmd/proto (reads both registries, normalises options to wire form, extracts the .proto text table)",
+        "translator harness/cmd/proto (reads both registries and both families' grpc.ServiceDesc values, normalises options to wire form, "
+        "extracts the .proto text table with a tokenizer + recursive-descent parser of the proto3 subset in use; option names are "
+        "resolved to numbers through the linked descriptors of the files that declare them)",
         "the two marshaller implementations are tied by differential evaluation against Proto/Wire.v, not verified",
     ],
     assumptions=[
